@@ -332,7 +332,40 @@ func c03ParserSubscript(w *World, r *Result) {
 			continue // the range desugaring (which also builds the loop) uses a single-index subscript
 		}
 		pos := w.Pos(s.Instr.Pos())
-		for i, o := range pf.origins(s.Val, map[ssa.Value]bool{}) {
+		// a bound handed back by a helper of the parser that builds it (the helper's returned
+		// values are what is stored)
+		entry := exprEntry(w)
+		var os []origin
+		for _, o := range pf.origins(s.Val, map[ssa.Value]bool{}) {
+			expanded := false
+			if o.kind == "value" && o.val != nil {
+				var call *ssa.Call
+				idx := 0
+				switch x := o.val.(type) {
+				case *ssa.Extract:
+					call, _ = x.Tuple.(*ssa.Call)
+					idx = x.Index
+				case *ssa.Call:
+					call = x
+				}
+				if call != nil {
+					if h := call.Call.StaticCallee(); h != nil && h != entry && h.Blocks != nil && pkgOf(h) == w.Pkgs["parser"].Types && (constructsNode(h, "BinaryOperation") || constructsNode(h, "Len")) {
+						for _, hb := range h.Blocks {
+							ret, ok := hb.Instrs[len(hb.Instrs)-1].(*ssa.Return)
+							if !ok || idx >= len(ret.Results) || isErrorReturn(ret) {
+								continue
+							}
+							os = append(os, pf.origins(ret.Results[idx], map[ssa.Value]bool{})...)
+							expanded = true
+						}
+					}
+				}
+			}
+			if !expanded {
+				os = append(os, o)
+			}
+		}
+		for i, o := range os {
 			key := fmt.Sprintf("affine:parser:%s#%d", s.Field, i+1)
 			switch {
 			case o.kind == "nil":
